@@ -23,10 +23,14 @@ THEOREMS = ["QExPy.C14_derived_nonneg",
 RULE = ("seeded histories (3-14 requests) over a heap of quantities: Measurement(v[, e]), "
         "Measurement([..][, e | [e..]]), MeasurementArray(error= | relative_error=, number or list), "
         "XYDataSet(xerr=, yerr=), array.append / array.insert of numbers, (v, e) pairs and lists of "
-        "pairs, re-wrapping existing arrays with new uncertainties "
+        "pairs, array item assignment (number / (v, e) pair, negative indices), every 8th history a "
+        "deliberate XYDataSet from EXISTING arrays (valid / invalid xerr x valid / invalid yerr, "
+        "different lengths, an existing array next to a plain list), re-wrapping existing arrays "
+        "with new uncertainties "
         "(MeasurementArray(arr, error=) and XYDataSet(xdata=arr, ydata=arr, xerr=, yerr=)), the "
         "error / relative_error / value setters on single, repeated and derived quantities, the "
-        "use_* selectors, arithmetic with quantity / number / (v, e)-pair operands and unary minus, "
+        "use_* selectors, arithmetic with quantity / number / (v, e)-pair operands, unary minus and "
+        "sin / cos / atan, "
         "and the Monte Carlo results of calculated quantities (error_method = Monte Carlo with the "
         "mean-and-std strategy, use_mode_with_confidence at valid and invalid confidences — also on "
         "x*x, 1-x*x, -(x*x) with x = 0 +/- s, whose histogram peaks in the first / last bin — and "
@@ -244,6 +248,28 @@ def gen_case(rng, malformed=False, long=False):
                 t.arrays.append([t.push("single", y) for y in ys])
             else:
                 flags.add("neg")
+        elif r < 0.46 and t.arrays and rng.random() < 0.25:
+            # arr[i] = number (the element's value setter) / arr[i] = (v, e) (a NEW element, built
+            # by wrap_in_measurement -> MeasuredValue(v, e); the old one stays as it was)
+            ids = rng.choice(t.arrays)
+            i = rng.randrange(-len(ids), len(ids))
+            v = sval(rng)
+            if rng.random() < 0.3:
+                ops.append(["setitem", list(ids), i, [bits(v), None]])
+                j = ids[i]
+                t.kind[j], t.val[j], t.src[j], t.stale[j] = "single", v, {j}, False
+                t.touched(j)
+            else:
+                e = serr(rng, max(pneg * 1.5, 0.3))
+                ops.append(["setitem", list(ids), i, [bits(v), bits(e)]])
+                flags.add("setitem")
+                if e >= 0:
+                    new = list(ids)
+                    new[i] = t.push("single", v)
+                    k = next(k for k, a in enumerate(t.arrays) if a is ids)
+                    t.arrays[k] = new
+                else:
+                    flags.add("neg")
         elif r < 0.46 and t.arrays and rng.random() < 0.45:
             # arr.append(x) / arr.insert(i, x) with x a number, a (v, e) pair or a list of pairs:
             # each new element is built by wrap_in_measurement -> MeasuredValue(v, e)
@@ -327,8 +353,9 @@ def gen_case(rng, malformed=False, long=False):
             # src of a derived value: every heap index its formula mentions, measured leaves and
             # derived intermediates alike (casting an intermediate to a measurement by one of its
             # setters changes what the formula means, so dependants are stale after that, too)
-            if rng.random() < 0.12:
-                ops.append(["un", "neg", a])
+            if rng.random() < 0.2:
+                # unary minus, or a function that is defined (and bounded) everywhere
+                ops.append(["un", rng.choice(["neg", "neg", "sin", "cos", "atan"]), a])
                 t.push("derived", None, t.src[a] | {a})
                 continue
             o = rng.choice(["add", "sub", "mul", "div"])
@@ -361,6 +388,90 @@ def gen_case(rng, malformed=False, long=False):
                 t.push("derived", None, src)
     return {"ops": ops, "malformed": malformed, "flags": sorted(flags),
             "mcN": rng.choice([120, 300]), "npseed": rng.randrange(2 ** 32)}
+
+
+XY_SHAPES = ["valid-x-invalid-y", "valid-x-invalid-y", "valid-x-invalid-y", "invalid-x-valid-y",
+             "both-invalid", "both-valid", "different-lengths", "different-lengths-invalid-y",
+             "array-x-list-y-invalid", "list-x-array-y-invalid", "array-x-list-y-valid"]
+
+
+def gen_xy_case(rng, shape=None):
+    """XYDataSet built from EXISTING MeasurementArrays that already carry uncertainties (different
+    from the new ones): every combination of a valid / invalid xerr with a valid / invalid yerr
+    (negative number, list with a negative entry, list of the wrong length), arrays of different
+    lengths, and an existing array next to a plain list.  A refused request must leave every
+    element of both arrays as it was."""
+    shape = shape or rng.choice(XY_SHAPES)
+    n = rng.randint(1, 4)
+    m = n if not shape.startswith("different-lengths") else n + rng.choice([1, 2])
+
+    def old_spec(k):
+        # the uncertainties the arrays carry beforehand: positive, so that overwriting shows
+        if rng.random() < 0.5:
+            return ["common", bits(rng.choice([0.75, 1.25, 2.0, 3.5]))]
+        return ["each", [bits(rng.choice([0.75, 1.25, 2.0, 3.5]) + 0.125 * i) for i in range(k)]]
+
+    def new_spec(k, valid):
+        r = rng.random()
+        if valid:
+            if r < 0.5:
+                return ["common", bits(rng.choice([0.0, 0.1, 0.25, 0.5]))]
+            return ["each", [bits(rng.choice([0.0, 0.1, 0.25, 0.5])) for _ in range(k)]]
+        if r < 0.4:
+            return ["common", bits(-rng.choice([0.1, 0.25, 1.0]))]
+        if r < 0.75 or k == 0:
+            es = [rng.choice([0.1, 0.25, 0.5]) for _ in range(k)]
+            es[rng.randrange(k)] *= -1
+            return ["each", [bits(e) for e in es]]
+        return ["each", [bits(rng.choice([0.1, 0.25, 0.5])) for _ in range(k + rng.choice([-1, 1, 2]))
+                         ] or [bits(0.1), bits(0.2)]]
+    xs, ys = [sval(rng) for _ in range(n)], [sval(rng) for _ in range(m)]
+    ops = []
+    flags = {"xy-existing:" + shape}
+    mixed = "list" in shape
+    # which array is made first (heap positions), and some history on the elements beforehand
+    ops.append(["array", [bits(x) for x in xs], old_spec(n)])
+    xid = list(range(n))
+    nxt = n
+    yid = None
+    if not mixed or True:
+        ops.append(["array", [bits(y) for y in ys], old_spec(m)])
+        yid = list(range(nxt, nxt + m))
+        nxt += m
+    if rng.random() < 0.4:
+        i = rng.randrange(nxt)
+        ops.append(["seterr", i, bits(rng.choice([0.0, 0.3, 4.0]))])
+    if rng.random() < 0.3:
+        ops.append(["arith", rng.choice(["add", "mul"]), ["ref", 0], ["ref", n]])
+        nxt += 1
+    vx = shape in ("valid-x-invalid-y", "both-valid", "different-lengths", "different-lengths-invalid-y",
+                   "array-x-list-y-invalid", "array-x-list-y-valid")
+    vy = shape in ("invalid-x-valid-y", "both-valid", "different-lengths", "array-x-list-y-valid")
+    if shape == "list-x-array-y-invalid":
+        vx, vy = True, False
+    if rng.random() < 0.5 and not mixed:
+        # the mirror image: the second array is x
+        xid, yid, n, m = yid, xid, m, n
+    sx, sy = new_spec(n, vx), new_spec(m, vy)
+    if mixed:
+        if shape.startswith("array-x"):
+            ops.append(["xymix", xid, "x", [bits(sval(rng)) for _ in range(n)], sx, sy])
+        else:
+            ops.append(["xymix", yid, "y", [bits(sval(rng)) for _ in range(m)], sx, sy])
+    else:
+        ops.append(["rewrapxy", xid, yid, sx, sy])
+    if not (vx and vy) or n != m:
+        flags.add("neg")
+    # afterwards the elements are still usable
+    if rng.random() < 0.5 and not mixed:
+        ops.append(["rewrapxy", xid, yid, new_spec(n, True), new_spec(m, True)])
+    if rng.random() < 0.4:
+        ops.append(["setrel", rng.randrange(n + m), bits(rng.choice([0.1, 0.5]))])
+    c = {"ops": ops, "malformed": not (vx and vy), "flags": sorted(flags), "mcN": None,
+         "npseed": 0, "xy_shape": shape}
+    if mixed:
+        c["spec_only"] = True      # array next to a plain list: judged by the spec clauses alone
+    return c
 
 
 def fmt_spec(s, kw="error"):
@@ -402,11 +513,20 @@ def describe(c):
         elif k == "rewrapxy":
             out.append("XYDataSet(xdata=<array h{}>, ydata=<array h{}>{}{})".format(
                 o[1], o[2], fmt_spec(o[3], "xerr"), fmt_spec(o[4], "yerr")))
+        elif k == "xymix":
+            lst = repr([unbits(x) for x in o[3]])
+            arr = "<array h{}>".format(o[1])
+            out.append("XYDataSet(xdata={}, ydata={}{}{})".format(
+                arr if o[2] == "x" else lst, lst if o[2] == "x" else arr,
+                fmt_spec(o[4], "xerr"), fmt_spec(o[5], "yerr")))
         elif k == "append":
             its = [unbits(v) if e is None else (unbits(v), unbits(e)) for v, e in o[2]]
             arg = repr(its[0]) if len(its) == 1 else repr(its)
             out.append("<array h{}>.{}".format(o[1], "append({})".format(arg) if o[3] is None
                                               else "insert({}, {})".format(o[3], arg)))
+        elif k == "setitem":
+            out.append("<array h{}>[{}] = {}".format(o[1], o[2], repr(unbits(o[3][0])) if o[3][1] is None
+                                                    else repr((unbits(o[3][0]), unbits(o[3][1])))))
         elif k == "seterr":
             out.append("h[{}].error = {!r}".format(o[1], unbits(o[2])))
         elif k == "setrel":
@@ -418,7 +538,7 @@ def describe(c):
         elif k == "arith":
             out.append("{} {} {}".format(opnd(o[2]), sym[o[1]], opnd(o[3])))
         elif k == "un":
-            out.append("-h[{}]".format(o[2]))
+            out.append("-h[{}]".format(o[2]) if o[1] == "neg" else "q.{}(h[{}])".format(o[1], o[2]))
         elif k == "mcmean":
             out.append("h[{0}].error_method = MC; h[{0}].mc.use_mean_and_std()".format(o[1]))
         elif k == "mcmode":
@@ -513,6 +633,14 @@ def observe(q, c):
             def f():
                 q.XYDataSet(xdata=arrays[tuple(o[1])], ydata=arrays[tuple(o[2])],
                             **spec_kwargs(o[3], "xerr"), **spec_kwargs(o[4], "yerr"))
+        elif k == "xymix":
+            def f():
+                arr, lst = arrays[tuple(o[1])], [unbits(x) for x in o[3]]
+                ds = q.XYDataSet(xdata=arr if o[2] == "x" else lst, ydata=lst if o[2] == "x" else arr,
+                                 **spec_kwargs(o[4], "xerr"), **spec_kwargs(o[5], "yerr"))
+                fresh = ds.ydata if o[2] == "x" else ds.xdata
+                arrays[tuple(range(len(objs), len(objs) + len(fresh)))] = fresh
+                new.extend(list(fresh))
         elif k == "append":
             def f():
                 a = arrays[tuple(o[1])]
@@ -525,6 +653,19 @@ def observe(q, c):
                 nid = list(range(len(objs), len(objs) + len(fresh)))
                 arrays[tuple(list(o[1][:pos]) + nid + list(o[1][pos:]))] = res
                 new.extend(fresh)
+        elif k == "setitem":
+            def f():
+                key = tuple(o[1])
+                a = arrays[key]
+                v, e = o[3]
+                if e is None:
+                    a[o[2]] = unbits(v)
+                else:
+                    a[o[2]] = (unbits(v), unbits(e))
+                    idx = o[2] % len(key)
+                    del arrays[key]
+                    arrays[key[:idx] + (len(objs),) + key[idx + 1:]] = a
+                    new.append(a[o[2]])
         elif k == "seterr":
             def f():
                 objs[o[1]].error = unbits(o[2])
@@ -547,7 +688,7 @@ def observe(q, c):
                 new.append(r)
         elif k == "un":
             def f():
-                new.append(-objs[o[2]])
+                new.append(-objs[o[2]] if o[1] == "neg" else getattr(q, o[1])(objs[o[2]]))
         elif k in ("mcmean", "mcmode", "mccustom"):
             def f():
                 x = objs[o[1]]
@@ -599,6 +740,12 @@ def model_line(c, o=None):
             ops.append(["mcmean", op[1], mc.get("samples", [])])
         elif op[0] == "mcmode":
             ops.append(["mcmode", op[1], mc.get("counts", []), mc.get("edges", []), op[2]])
+        elif op[0] == "setitem":
+            # a number goes to the element's value setter; a pair makes a new MeasuredValue(v, e)
+            if op[3][1] is None:
+                ops.append(["setval", op[1][op[2] % len(op[1])], op[3][0]])
+            else:
+                ops.append(["meas", op[3][0], op[3][1]])
         elif op[0] == "append":
             # every new element goes through MeasuredValue(v, e) (a bare number: e = 0); a list is
             # all-or-nothing, like the array constructor with per-element uncertainties
@@ -698,8 +845,8 @@ def run_cases(ctx, cases, ref=False, with_model=True):
     import qexpy as q
     obs = [observe(q, c) for c in cases]
     H.reset(q)
-    mod = ctx.model([model_line(c, o) for c, o in zip(cases, obs)], ref=ref) if with_model \
-        else [None] * len(cases)
+    mod = ctx.model([model_line(c, o) if not c.get("spec_only") else {"cmd": "c14", "ops": []}
+                     for c, o in zip(cases, obs)], ref=ref) if with_model else [None] * len(cases)
     res = {"evaluations": len(cases), "nontrivial": set(), "failures": [], "samples": [],
            "distribution": collections.Counter(), "skipped": 0}
     d = res["distribution"]
@@ -711,13 +858,22 @@ def run_cases(ctx, cases, ref=False, with_model=True):
         for f in sp:
             f["oracle"] = "independent"
         res["failures"] += sp
-        if with_model:
+        if with_model and not c.get("spec_only"):
             res["failures"] += compare(c, o, m)
+        if c.get("xy_shape"):
+            d["xy-from-existing-arrays:" + c["xy_shape"]] += 1
+            for op, st in zip(c["ops"], o["steps"]):
+                if op[0] in ("rewrapxy", "xymix"):
+                    d["xy-from-existing-arrays:outcome-" + st["out"]] += 1
         d["stream:" + ("malformed" if c["malformed"] else "valid")] += 1
         d["ops:%s" % ("<=5" if len(c["ops"]) <= 5 else "6-10" if len(c["ops"]) <= 10 else
                       "11-14" if len(c["ops"]) <= 14 else "15-40")] += 1
         for op, st in zip(c["ops"], o["steps"]):
             tag = op[0]
+            if op[0] == "un":
+                tag += ":" + op[1]
+            if op[0] == "setitem":
+                tag += ":number" if op[3][1] is None else ":pair"
             if op[0] in ("rep", "array", "rewrap"):
                 tag += ":" + (op[2][0] if op[2] else "none")
             if op[0] in ("seterr", "setrel", "setval", "sel") and op[1] < len(st["heap"]):
@@ -736,7 +892,10 @@ def run_cases(ctx, cases, ref=False, with_model=True):
 
 
 def chunk(sub, n):
-    return run_cases(sub, [gen_case(sub.rng, malformed=(i % 3 == 2), long=not sub.quick and i % 2 == 0)
+    # every 8th history is a deliberate XYDataSet-from-existing-arrays request (all validity
+    # combinations of xerr / yerr, see gen_xy_case)
+    return run_cases(sub, [gen_xy_case(sub.rng) if i % 8 == 5 else
+                           gen_case(sub.rng, malformed=(i % 3 == 2), long=not sub.quick and i % 2 == 0)
                            for i in range(n)])
 
 
@@ -745,7 +904,8 @@ def correspond(ctx):
 
 
 def search_chunk(sub, n):
-    return run_cases(sub, [gen_case(sub.rng, malformed=(i % 2 == 1)) for i in range(n)],
+    return run_cases(sub, [gen_xy_case(sub.rng) if i % 8 == 5 else
+                           gen_case(sub.rng, malformed=(i % 2 == 1)) for i in range(n)],
                      with_model=False)
 
 
